@@ -136,3 +136,33 @@ theorem C16_threshold_restriction (E : Env) (order : List Nat) (thr : Int)
 -- non-vacuity: values `3 1 3 1 2` flipped and mapped by `v ↦ 2v + 7` (identifiers and child order
 -- differ between the two runs; see the witness at the end of ADProofs/SimProofs.lean)
 example : (0 : Int) < 2 ∧ [0, 2, 4, 1, 3].map (fun p => 4 - p) = [4, 2, 0, 3, 1] := by decide
+
+/-! ## Ties clause -/
+
+/-- **C16 (ties: number of leaves).** `E'` is `E` with pixels renamed by `σ` (adjacency corresponds,
+the order of values is preserved: any axis permutation, flip, padding, unit axis, `a·v+b` with
+`a > 0`, any strictly increasing map), neither run prunes, and `order'` is ANY admissible order
+of the renamed pixels (ties may be broken differently): the two runs have the same number of
+leaves. -/
+theorem C16_leaf_count_invariant (E E' : Env) (σ : Nat → Nat) (order order' : List Nat)
+    (hsym' : ∀ x y, y ∈ E'.nbrs x → x ∈ E'.nbrs y)
+    (hno : ∀ t p v, E.indep t p v = true) (hno' : ∀ t p v, E'.indep t p v = true)
+    (hadj : ∀ p ∈ order, ∀ q ∈ order, (q ∈ E.nbrs p ↔ σ q ∈ E'.nbrs (σ p)))
+    (hmono : ∀ p ∈ order, ∀ q ∈ order, (E.val p ≤ E.val q ↔ E'.val (σ p) ≤ E'.val (σ q)))
+    (hperm' : order'.Perm (order.map σ)) (hnd' : order'.Nodup)
+    (hs' : order'.Pairwise (fun a b => E'.val b ≤ E'.val a))
+    (hs : order.Pairwise (fun a b => E.val b ≤ E.val a)) :
+    (P34.leavesOf (run E order)).length = (P34.leavesOf (run E' order')).length :=
+  P34.leaf_count_transform E E' σ order order' hsym' hno hno' hadj hmono hperm' hnd' hs' hs
+
+/-- **C16 (ties: assigned pixels and trunk regions)** are order-independent for criteria that can
+only turn true as a structure grows: see `C17_assigned_order_independent`,
+`C17_trunk_regions_order_independent` (stated for any adjacency); for `min_sum` on negative data
+they are not (`C17_K5_witness`; known findings K5 / K6). Here: the flipped row of K6. -/
+theorem C16_K6_witness :
+    let val : Nat → Int := fun p => [-3, -2, -3, -2].getD p 0
+    let nb : Nat → List Nat := Grid.nbrs [4] []
+    let E := envOf val nb [Crit.minSum (-2)]
+    -- the order the implementation uses on the array, and the image of the order it uses on the flipped array
+    sortedDesc val [3, 1, 2, 0] = true ∧ sortedDesc val [1, 3, 0, 2] = true ∧
+    (pixelsL (makeTrunk E (run E [3, 1, 2, 0]))).length ≠ (pixelsL (makeTrunk E (run E [1, 3, 0, 2]))).length := by decide
